@@ -4,6 +4,9 @@
     sequences from 1-3 tasks (lock and line granularity in multikey.py), audited after every operation;
 (b) provider MDIB tables under transaction histories that change indexed attributes (Source, ConditionSignaled,
     parent via delete+re-create, context handles) incl. rejected operations.
+(c) consumer MDIB tables: a share of the runs is a complete C06 session (provider + consumer + fault-injecting
+    middlebox: duplicated create parts are the rejected insertions of the consumer side, description updates change
+    indexed attributes) of which only the lookup audit after every operation is judged here.
 The consumer tables and the subscription table are audited in C01/C06/C08 runs as well.
 """
 from __future__ import annotations
@@ -30,10 +33,33 @@ def table_state(t):
             sorted(len(v) for v in t._object_ids.values() if v))
 
 
+class _LookupsOnly:
+    """Ctx view handed to the C06 session body: only its lookup clause is judged (as C11.consumer)"""
+
+    def __init__(self, ctx):
+        object.__setattr__(self, '_ctx', ctx)
+
+    def __getattr__(self, name):
+        return getattr(self._ctx, name)
+
+    def __setattr__(self, name, value):
+        setattr(self._ctx, name, value)
+
+    def violation(self, clause, sig, detail, stop=True, cont=False):
+        if clause == 'C06.lookups' and not sig.startswith('exception-in-thread'):
+            return self._ctx.violation('C11.consumer', sig, detail, stop, cont)
+        self._ctx.probe('other_property_clause_not_judged_here')
+        from dsim.base import StopRun
+        if stop:
+            raise StopRun
+        return False
+
+
 class C11(CheckBase):
     id = 'C11'
     level = 'exploration'
-    line_allow = ('sdc11073/multikey.py', 'sdc11073/mdib/mdibbase.py')
+    max_steps = 8_000_000
+    line_allow = ('sdc11073/multikey.py', 'sdc11073/mdib/mdibbase.py', 'sdc11073/mdib/consumermdib')
     rule = ('one evaluation = one simulated run: (a) 20-120 seeded operations (add / mutate+update_object / remove / '
             'clear / failed add / remove of unknown object, locked and _no_lock entry '
             'points) on a MultiKeyLookup from 1-3 tasks, every index recomputed from the stored objects after each '
@@ -41,16 +67,23 @@ class C11(CheckBase):
             'every rejected operation; non-trivial = a rejected insertion happened or >= 2 tasks; distinct = event-log '
             'digest + operation-sequence digest')
     components = {'real': ['MultiKeyLookup, IndexDefinition, UIndexDefinition, IndexDefinition1n',
-                           'DescriptorsLookup/StatesLookup/MultiStatesLookup', 'ProviderMdib transactions'], 'stub': []}
+                           'DescriptorsLookup/StatesLookup/MultiStatesLookup', 'ProviderMdib transactions',
+                           'ConsumerMdib report processing (in the consumer sessions: SdcProvider + SdcConsumer stack)'],
+                  'stub': ['sockets, aiohttp session (consumer sessions only)']}
     assumptions = ['concurrent table access goes through the locked entry points (the _no_lock ones are used by one task '
                    'at a time, as the MDIB does under mdib_lock)']
-    expected_probes = ['failed_add', 'update_object', 'indexed_attr_changed', 'commits']
+    expected_probes = ['failed_add', 'update_object', 'indexed_attr_changed', 'commits', 'consumer_sessions']
 
     def budget(self, tier):
         return {'quick': {'runs': 1500, 'wall': 60}, 'thorough': {'runs': 60000, 'wall': 1200}}[tier]
 
     def generate(self, rng, tier):
-        mode = rng.choice(['table', 'table', 'mdib'])
+        mode = rng.choice(['table'] * 10 + ['mdib'] * 6 + ['consumer'] * 2)
+        if mode == 'consumer':
+            from checks.c06 import CHECK as C06
+            plan = C06.generate(rng, tier)
+            plan['mode'] = mode
+            return plan
         plan = {'sched': draw_sched_config(rng), 'mode': mode}
         if mode == 'table':
             tasks = rng.choice([1, 1, 2, 3])
@@ -85,7 +118,11 @@ class C11(CheckBase):
 
     # ------------------------------------------------------------------
     def body(self, ctx):
-        if ctx.plan['mode'] == 'table':
+        if ctx.plan['mode'] == 'consumer':
+            from checks.c06 import CHECK as C06
+            ctx.probe('consumer_sessions')
+            C06.body(_LookupsOnly(ctx))
+        elif ctx.plan['mode'] == 'table':
             self._table(ctx)
         else:
             self._mdib(ctx)
